@@ -485,13 +485,19 @@ func (h *c11History) orphans() (list []*c11ConnInfo, stale map[int32]*c11Op) {
 			continue // CloseSession may have closed it
 		}
 		list = append(list, c)
+		// the remover whose late garbage collection fell between this Add and this remove is preferred as witness
 		for _, r := range h.removers[c.sess] {
 			if r.call > c.add.ret {
 				break
 			}
 			if r.ret >= c.add.call {
-				stale[c.idx] = r
-				break
+				if stale[c.idx] == nil {
+					stale[c.idx] = r
+				}
+				if r.hk[1] != 0 && r.hk[1] <= r0.ret {
+					stale[c.idx] = r
+					break
+				}
 			}
 		}
 	}
@@ -529,7 +535,7 @@ func (h *c11History) checkWriters(res *c11Result, parked, other, round int) {
 		w := map[string]any{"connection": h.connJSON(c)}
 		if r := stale[c.idx]; r != nil {
 			w["stale_remover_in_its_wait_window_during_the_add"] = st.opJSON(r)
-			w["session_history"] = h.around(c.sess, r.call, c.rems[0].ret, 16)
+			w["session_history_from_add_to_remove"] = h.around(c.sess, c.add.call, c.rems[0].ret, 16)
 		}
 		wit = append(wit, w)
 	}
